@@ -72,7 +72,7 @@ fn enabled(h: &[Op]) -> Vec<Op> {
     for n in 0..3 {
         v.push(Op::Define(n, n % 2 == 0, 0));
     }
-    if d < 2 {
+    if d < 3 {
         v.push(Op::Push);
     }
     if d > 0 {
@@ -406,6 +406,44 @@ fn part_b_profile(run: &mut Run, profile: &str, vals: [MV; 3]) {
                             other => run.fail("C11|prog|context-variable-changed", format!("after `{}` the context variable {} is {:?}", src, NAMES[k], other), json!({"src": src})),
                         }
                     }
+                }
+            }
+        }
+    }
+    // ---- shadow chains: 3 and 4 `map` levels, every assignment of the three names to the levels,
+    //      the innermost body reads all three names (each level iterates a different constant, so
+    //      the value read identifies the binding level)
+    run.sub(&format!("shadow-chains-{}", profile));
+    for d in 3..=4usize {
+        for code in 0..3usize.pow(d as u32) {
+            if !run.take() {
+                continue;
+            }
+            let mut e = E::List(vec![nm(0), nm(1), nm(2)]);
+            let mut c = code;
+            for lvl in (0..d).rev() {
+                let var = c % 3;
+                c /= 3;
+                let range = E::Lit(MV::List(vec![MV::Int(100 * (lvl as i64 + 1))]));
+                e = macro_of("map", range, NAMES[var], e);
+            }
+            let e = E::List(vec![e, nm(0), nm(1), nm(2)]);
+            let src = e.src();
+            env.log.clear();
+            let exp = eval(&e, &mut env);
+            let got = subj::run_src(&src, &ctx);
+            run.trans(2);
+            let case = || json!({"src": src, "expected": format!("{:?}", exp), "got": got.show()});
+            run.class(&format!("chain-{}:{}:{}:{}", profile, d, exp_tag(&exp), got.tag()), case);
+            if let Some(ok) = compare(&exp, &got) {
+                run.validated();
+                run.nontrivial();
+                if !ok {
+                    run.fail(
+                        &format!("C11|chain-{}|depth{}|expect={}|got={}", profile, d, exp_tag(&exp), got.tag()),
+                        format!("`{}` : lexical scoping gives {:?}, implementation gave {}", src, exp, got.show()),
+                        case(),
+                    );
                 }
             }
         }
